@@ -19,7 +19,10 @@ import (
 	stakingtypes "github.com/cosmos/cosmos-sdk/x/staking/types"
 	"github.com/ethereum/go-ethereum/common"
 
+	tmproto "github.com/cometbft/cometbft/proto/tendermint/types"
 	ctypes "github.com/settlus/chain/types"
+	"github.com/settlus/chain/x/oracle"
+	"github.com/settlus/chain/x/settlement"
 	oraclekeeper "github.com/settlus/chain/x/oracle/keeper"
 	oracletypes "github.com/settlus/chain/x/oracle/types"
 	settlementkeeper "github.com/settlus/chain/x/settlement/keeper"
@@ -214,6 +217,7 @@ type Exec struct {
 	nextTok  uint64
 	gasPrices []sdk.DecCoin
 	oracleFee sdk.Dec
+	RT        *RoundtripObs
 	HashDiff  []int // events after which a second execution of the same history committed another app hash
 }
 
@@ -616,6 +620,68 @@ func (e *Exec) Run() []Obs {
 		}
 	}
 	return out
+}
+
+// RoundtripObs is what the genesis export / import round trip observed (C17).
+type RoundtripObs struct {
+	Class      string    // ok | panic (InitChain of the fresh application panicked) | rejected (export failed)
+	Log        string
+	Snap       *Snapshot // module state of the fresh application right after InitChain
+	SameExport bool      // both modules' ExportGenesis JSON identical before and after
+}
+
+func (e *Exec) moduleExports(c *Chain, ctx sdk.Context) (string, string) {
+	sg := settlement.ExportGenesis(ctx, c.App.SettlementKeeper)
+	og := oracle.ExportGenesis(ctx, *c.App.OracleKeeper)
+	cdc := c.App.AppCodec()
+	return string(cdc.MustMarshalJSON(sg)), string(cdc.MustMarshalJSON(og))
+}
+
+// Roundtrip exports the whole application state of the (committed) chain, initialises a fresh
+// application from it at the next height and observes the two modules there.
+func (e *Exec) Roundtrip() (ro *RoundtripObs) {
+	c := e.C
+	ro = &RoundtripObs{}
+	defer func() {
+		if r := recover(); r != nil {
+			ro.Class = "rejected"
+			ro.Log = fmt.Sprint("export: ", r)
+		}
+	}()
+	exp, err := c.App.ExportAppStateAndValidators(false, nil, nil)
+	if err != nil {
+		ro.Class = "rejected"
+		ro.Log = err.Error()
+		return ro
+	}
+	ctx1 := c.App.NewContext(true, tmproto.Header{Height: c.App.LastBlockHeight()})
+	s1, o1 := e.moduleExports(c, ctx1)
+	var raw map[string]json.RawMessage
+	if err := json.Unmarshal(exp.AppState, &raw); err != nil {
+		ro.Class = "rejected"
+		ro.Log = err.Error()
+		return ro
+	}
+	spec := c.Spec
+	spec.RawState = raw
+	spec.InitialHeight = exp.Height
+	c2, pi := NewChain(spec)
+	if pi != nil {
+		ro.Class = "panic"
+		ro.Log = pi.Msg
+		return ro
+	}
+	c2.header = tmproto.Header{ChainID: ChainID, Height: exp.Height, Time: c.Time}
+	e2 := &Exec{C: c2, H: e.H, reqs: e.reqs, reqList: e.reqList, tracked: e.tracked, trackLst: e.trackLst, sbt: e.sbt, commits: e.commits}
+	ro.Snap = e2.snapshot()
+	ro.Snap.Height = c.Height
+	s2, o2 := e.moduleExports(c2, c2.Ctx())
+	ro.SameExport = s1 == s2 && o1 == o2
+	if !ro.SameExport {
+		ro.Log = "settlement before: " + s1 + "\nsettlement after: " + s2 + "\noracle before: " + o1 + "\noracle after: " + o2
+	}
+	ro.Class = "ok"
+	return ro
 }
 
 func unq(s string) string { return strings.Trim(s, "\"") }
